@@ -181,15 +181,27 @@ def run_driver(c, ch, name, test, rows_path, nrows, env, log):
     raise vlib.InfraError("driver %s died more than %d times" % (name, MAX_RESTARTS))
 
 
-def combination(fs, domain):
-    """the field classes that matter for a set of failing rows: a field is named when the failing rows do not show all of
-    its classes; it is named with every class the failing rows do show (payload=absent,clientconf=equal|newer|older)"""
-    parts = []
-    for k in sorted(domain):
-        seen = {f.get(k) for f in fs if k in f}
-        if seen and seen != domain[k] and len(seen) < len(domain[k]):
-            parts.append("%s=%s" % (k, "|".join(sorted(seen))))
-    return ",".join(parts) or "any"
+def combination(fs, domain, nominals, strong=False):
+    """the field classes that matter for a set of failing rows.
+    Many rows: a field is named when the failing rows do not show all of its classes, with every class they do show
+    (payload=absent,clientconf=equal|newer|older).  Few rows (a dying driver is resumed a few times only): the classes all
+    failing rows share and that differ from the closest nominal row."""
+    if len(fs) >= 30 or not nominals:
+        parts = []
+        for k in sorted(domain):
+            seen = {f.get(k) for f in fs if k in f}
+            if strong and 2 * len(seen) > len(domain[k]):
+                continue    # the key names only the fields the failing rows pin to at most half of their classes
+            if seen and len(seen) < len(domain[k]) and (len(fs) >= 30 or len(seen) == 1):
+                parts.append("%s=%s" % (k, "|".join(sorted(seen))))
+        return ",".join(parts) or "any"
+    common = {k: v for k, v in fs[0].items() if all(f.get(k) == v for f in fs)}
+    best = None
+    for n in nominals:
+        d = sorted("%s=%s" % (k, v) for k, v in common.items() if n.get(k) != v)
+        if best is None or (len(d), d) < (len(best), best):
+            best = d
+    return ",".join(best) or "nominal"
 
 
 def run(ctx):
@@ -252,7 +264,7 @@ def run(ctx):
     ctx.stage("A", guards=len(guards), rows_per_guard=trig_total)
 
     # ------------------------------------------------------------------ stage B
-    env = {"VERIF_MUT_EVERY": 8 if thorough else 40, "VERIF_MUT_TRUNC": 48 if thorough else 24, "VERIF_MUT_FLIPS": 16 if thorough else 8,
+    env = {"VERIF_MUT_EVERY": 16 if thorough else 40, "VERIF_MUT_TRUNC": 48 if thorough else 24, "VERIF_MUT_FLIPS": 16 if thorough else 8,
            "VERIF_CALL_TIMEOUT_MS": 10000}
     results, errors = {}, []
     lock = threading.Lock()
@@ -326,15 +338,17 @@ def run(ctx):
     for (what, site, ep), items in sorted(anomalies.items()):
         plain = [r["f"] for (v, r) in items if not v or v == "parse"]
         if plain:
-            combo = combination(plain, domains.get(ep, {}))
+            combo = combination(plain, domains.get(ep, {}), nominals.get(ep), strong=True)
+            full = combination(plain, domains.get(ep, {}), nominals.get(ep))
         else:
             kinds = sorted({re.sub(r"@.*", "", v).replace("parse", "") for (v, r) in items})
-            combo = "mut=%s,%s" % ("|".join(kinds), combination([r["f"] for (v, r) in items], domains.get(ep, {})))
+            combo = "mut=%s,%s" % ("|".join(kinds), combination([r["f"] for (v, r) in items], domains.get(ep, {}), nominals.get(ep), strong=True))
+            full = combo
         rec = next((r for (v, r) in items if r.get("stack") or r.get("panic") or r.get("detail")), items[0][1])
         key = "%s:%s:%s:%s" % (what, site, ep, combo)
         desc = {"panic": "panics", "nostatus": "closes the connection without an HTTP status line", "hang": "does not return"}[what]
         ctx.violation(key, "%s %s (%s) for %s [%d input(s) of this run] %s" %
-                      (ep, desc, site, combo, len(items), (rec.get("panic") or rec.get("detail") or "")[:200]),
+                      (ep, desc, site, full, len(items), (rec.get("panic") or rec.get("detail") or "")[:200]),
                       {"record": {k: rec.get(k) for k in ("ep", "f", "variant", "panic", "detail", "site")}, "stack": (rec.get("stack") or "")[:4000],
                        "occurrences": len(items)})
     if disagreements:
@@ -355,7 +369,8 @@ def run(ctx):
         "exploration level: structured inputs (complete field-class products / all pairs / all triples around bases) and their truncation / "
         "bit-flip neighbourhoods; bytes far from any well-formed message (deep protobuf wire-format corners) are not covered",
         "ZMQ, the TUN/DNAT device and the DTLS dial are below the driven layer: bytes are handed to parseRegMessage, the processor publishes "
-        "into a recording sender, the dtls transport's Connect is replaced by one that returns at once (its parameter handling is real)",
+        "into a recording sender; in the ingest driver the dtls transport's Connect returns at once (handleConnectingTpReg and the parameter "
+        "handling are real), the real Connect is driven on its own with the real DNAT packet construction writing to /dev/null and no peer",
         "the API server is a net/http server with the three routing lines of APIRegServer.ListenAndServe on a loopback listener",
         "a transport that deliberately holds a failed handshake open (obfs4 library) is given a peer that goes away after 300 ms; "
         "a per-call timeout of 10 s decides 'hang'",
